@@ -96,6 +96,7 @@ def generate(seed, tier):
         pool.append(src)
     n_gen = rng.choice([0, 2, 4, 8, 12])
     n_corpus = len(pool)
+    twins = []
     for _ in range(n_gen):
         pool.append(_generated_source(srng))
         if srng.random() < 0.3:
@@ -108,6 +109,7 @@ def generate(seed, tier):
             twin = genmisc.gen_source(_random.Random(st), 1)
             if twin != pool[-1]:
                 pool.append(twin)
+                twins.append((len(pool) - 2, len(pool) - 1))
     # focus keys recur across processes and positions; half of them are generated
     # programs (which share struct / function / global names among each other)
     n_focus = rng.randint(3, 8)
@@ -127,6 +129,8 @@ def generate(seed, tier):
         for nm in set(re.findall(r"struct\s+(\w+)\s*\{", src)):
             by_name.setdefault("struct " + nm, []).append(i)
     clusters = [v for k, v in sorted(by_name.items()) if len(v) >= 2]
+    if twins and rng.random() < 0.5:
+        clusters = [list(rng.choice(twins))]
     if clusters and rng.random() < 0.6:
         cl = rng.choice(clusters)
         o = rng.randrange(4)
@@ -134,7 +138,7 @@ def generate(seed, tier):
     if with_imports:
         imps = [i for i, s in enumerate(pool) if "import " in s]
         focus += [(rng.choice(imps), rng.randrange(2)) for _ in range(2)]
-    relib = rng.random() < 0.5
+    relib = rng.random() < 0.65
     heavy = [i for i, src in enumerate(pool) if len(src) > 4000] if rng.random() < 0.35 else []
     nproc = rng.randint(2, 5 if tier == "quick" else 6)
     procs = []
@@ -166,9 +170,17 @@ def generate(seed, tier):
             # version 1, some rebuild the libraries in the middle of their history
             libver = rng.randrange(2)
             v = libver
+            imp_focus = [f for f in focus if "import " in pool[f[0]]]
             for _ in range(rng.randint(0, 2)):
                 v = 1 - v
-                hist.insert(rng.randrange(len(hist) + 1), [-1, {"relib": v}])
+                pos = rng.randrange(len(hist) + 1)
+                step = [[-1, {"relib": v}]]
+                if imp_focus and rng.random() < 0.7:
+                    # an importing source right before and right after the libraries change
+                    i, o = rng.choice(imp_focus)
+                    step = [[i, dict(OPTSETS[o])]] + step + [[i, dict(OPTSETS[o])]]
+                    used.add(i)
+                hist[pos:pos] = step
         if heavy and rng.random() < 0.5:
             # big optimised compilations early in the process (whatever accumulates per process -
             # counters, pools, caps - is far along when the focus keys are compiled)
